@@ -458,3 +458,39 @@ func genInvalidPod(r *Rng, i int) PodCase {
 	}
 	return pc
 }
+
+// versionSensitivePod: an otherwise restricted-compliant pod whose verdict (or message) at a level changes between two
+// policy versions — it uses something a later version allows, requires or exempts
+func versionSensitivePod(r *Rng, name string) *corev1.Pod {
+	c := corev1.Container{Name: "c", Image: "i", SecurityContext: compliantSC()}
+	p := &corev1.Pod{ObjectMeta: metav1.ObjectMeta{Name: name, Namespace: "ns"}, Spec: corev1.PodSpec{Containers: []corev1.Container{c},
+		SecurityContext: &corev1.PodSecurityContext{RunAsNonRoot: bp(true), SeccompProfile: &corev1.SeccompProfile{Type: "RuntimeDefault"}}}}
+	n := 1 + r.Intn(2)
+	for k := 0; k < n; k++ {
+		switch r.Intn(10) {
+		case 0:
+			p.Spec.SecurityContext.Sysctls = append(p.Spec.SecurityContext.Sysctls, corev1.Sysctl{Name: "net.ipv4.ip_local_reserved_ports", Value: "1"}) // allowed from v1.27
+		case 1:
+			p.Spec.SecurityContext.Sysctls = append(p.Spec.SecurityContext.Sysctls, corev1.Sysctl{Name: "net.ipv4.tcp_keepalive_time", Value: "1"}) // v1.29
+		case 2:
+			p.Spec.SecurityContext.Sysctls = append(p.Spec.SecurityContext.Sysctls, corev1.Sysctl{Name: "net.ipv4.tcp_rmem", Value: "1"}) // v1.32
+		case 3:
+			p.Spec.Containers[0].SecurityContext.SELinuxOptions = &corev1.SELinuxOptions{Type: "container_engine_t"} // v1.31
+		case 4:
+			p.Spec.OS = &corev1.PodOS{Name: "windows"} // restricted exempts windows pods from three controls from v1.25
+			p.Spec.SecurityContext.SeccompProfile = nil
+			p.Spec.Containers[0].SecurityContext = &corev1.SecurityContext{}
+		case 5:
+			p.Spec.Containers[0].SecurityContext.Capabilities = nil // restricted requires drop ALL from v1.22
+		case 6:
+			p.Spec.Containers[0].SecurityContext.RunAsUser = ip(0) // restricted forbids from v1.23
+		case 7:
+			p.Spec.Containers[0].SecurityContext.AllowPrivilegeEscalation = nil // restricted requires false from v1.8
+		case 8:
+			p.Spec.SecurityContext.SeccompProfile = nil // restricted requires a profile from v1.19
+		default:
+			p.Annotations = map[string]string{"seccomp.security.alpha.kubernetes.io/pod": "unconfined"} // judged until v1.18 only
+		}
+	}
+	return p
+}
